@@ -100,4 +100,43 @@ def judgeC17 : P Verdict := do
     finishSchema op (some m) (fun y => PT.eval g (embed y)) false
   | _ => throw s!"unknown C17 op {op}"
 
+def nodeStatesIdx (t : PT Q) : List (Nat × NState Q) := t.toArena.map (fun nd => (nd.idx, nd.val.state))
+def nodeStates (t : PT Q) : List (NState Q) := (nodeStatesIdx t).map (·.2)
+
+/-- C17R: `remove_axes(mask)` on a tree with cached states -/
+def judgeC17R : P Verdict := do
+  if (← peek?) == some "sweep-panic" then
+    return .skip "infeasible_elimination panicked while preparing the operand"
+  let n ← pNat
+  let mask ← pMany n pNat
+  let gd ← pTree
+  expect "|"
+  let st ← tok
+  let some g := gd.abs | return .skip "operand is not a consistent tree"
+  if st == "panic" then return .propfail "[C17] remove_axes panicked on a mask of the tree's input dimension"
+  let td ← pTree
+  let pts ← pPoints
+  let some h := td.abs | return .propfail "[C12] remove_axes: the resulting arena is not a consistent tree"
+  let keep := (List.range n).filter (fun j => mask.getD j 0 == 1)
+  if g.size ≥ 3 then tag "nt"
+  let cached := (nodeStates g).any (fun s => s != .indeterminate)
+  if cached then tag "cached-states"
+  -- property (C05): the dropped columns pin the removed coordinates to 0, every path condition changes: a cached
+  -- witness or verdict must not survive
+  match (nodeStatesIdx h).find? (fun p => p.2 != .indeterminate) with
+  | some (i, s) =>
+    return .propfail s!"[C05] remove_axes: node {i} keeps the cached state {showState s} although its path conditions changed (the removed input coordinates are pinned to 0)"
+  | none => pure ()
+  -- property (C17): the value at the kept coordinates is the value of the tree with the removed coordinates set to 0
+  let embed : List Q → List Q := fun y =>
+    (List.range n).map (fun j => if mask.getD j 0 == 1 then y.getD (keep.findIdx (· == j)) 0 else 0)
+  let (bad, inexact) := firstEvalDiff h (fun y => PT.eval g (embed y)) pts
+  if let some (x, want, got) := bad then
+    return .propfail s!"remove_axes: at input {showVec x} the tree restricted to the kept axes gives {showOptVec want} but the result evaluates to {showEval got}"
+  -- correspondence: the model's `removeAxes`
+  match treeCmp g.indices true (Sch.removeAxes keep g) h with
+  | .same => if inexact then pure (.inexact "eval") else pure .ok
+  | .close => pure (.inexact "tree")
+  | .different => pure (.diverge "remove_axes: the resulting tree differs from the model tree (columns, states or indices)")
+
 end AV.Judge
